@@ -213,6 +213,17 @@ def run(ck):
                     late.append((x, "%s at line %s" % ((x.get("callee") or "").rsplit("::", 2)[-1], x.get("l"))))
                 elif x["k"] == "dtor" and "RequestEntry" in (x.get("type") or "") and dtor_touches:
                     late.append((x, "the destructor of `%s` (a request entry, whose destructor touches the timer) at line %s" % (x.get("var"), x.get("l"))))
+        # ... and the callback is invoked when it is set (not when it is empty): a test of the callback that guards the call guards it
+        # with its true edge (from the mutation sweep: `if (onDone)` negated survives the suite in handleError / handleTimeout)
+        for d_ in dones:
+            cbv = (d_.get("recv") or {}).get("v") or (d_.get("recv") or {}).get("root")
+            wrong = [b_ for b_ in fn.blocks.values() if b_.term and len(b_.succs) == 2 and not b_.term.get("cmp") and cbv and
+                     ((b_.term.get("core") or {}).get("v") == cbv or (b_.term.get("core") or {}).get("root") == cbv) and
+                     b_.succs[0 if b_.term.get("neg") else 1] is not None and cfg.edge_dominates(fn, b_.id, 0 if b_.term.get("neg") else 1, d_)]
+            ck.ob("C15-R14", "%s/onDone-called-when-set" % name, not wrong, d_.loc, fn,
+                  "the completion callback is invoked on the edge on which it is non-empty (or unconditionally)" if not wrong else
+                  "the completion callback is invoked on the edge on which `%s` is EMPTY and skipped when it is set: the connection is never "
+                  "handed back and the host's queued requests never start" % cbv)
         ck.ob("C15-R14", "%s/timer-released-before-onDone" % name, not late, (late[0][0].loc if late else dones[0].loc), fn,
               "nothing touches the timer after the completion callback" if not late else
               "%s runs after onDone(): the next request has already armed the same timer, which is disarmed under it" % late[0][1])
